@@ -85,19 +85,11 @@ func Build(c *enum.Ctx, o Opts) (*cell.Cell, string) {
 			copy(h[:], bits.Pattern(o.Seed+k+pat, 256).Bytes())
 			x = cell.NewLibrary(h)
 		case cell.PrunedBranch:
-			if nr != 0 || li > 3 {
+			if nr != 0 || li > 6 {
 				c.Skip()
 				return nil, ""
 			}
-			// original: a small ordinary cell (level 0) or, for li>=2, an original that itself has level 1
-			orig := cell.MustNew(bits.Pattern(o.Seed+k, 24+pat).Bytes(), 24+pat, nil, false)
-			lvl := 1 + li%3
-			if li == 3 {
-				inner, _ := cell.NewPruned(orig, 1)
-				orig = cell.MustNew([]byte{0xAA}, 8, []*cell.Cell{inner}, false)
-				lvl = 2 + pat%2
-			}
-			x, err = cell.NewPruned(orig, lvl)
+			x, err = PrunedKind(li, o.Seed+k, pat)
 		case cell.MerkleProof:
 			if nr != 1 || li != 0 || pat != 0 {
 				c.Skip()
@@ -125,4 +117,28 @@ func Build(c *enum.Ctx, o Opts) (*cell.Cell, string) {
 		}
 	}
 	return cells[n-1], desc
+}
+
+// PrunedKind builds one of 7 pruned-branch cells covering every level mask 1..7:
+// kind 0,1,2: a level-0 original pruned at level 1,2,3 (masks 1,2,4); kind 3,4: an original of mask 1 pruned at 2,3 (masks 3,5);
+// kind 5: an original of mask 2 pruned at 3 (mask 6); kind 6: an original of mask 3 pruned at 3 (mask 7).
+func PrunedKind(kind, seed, pat int) (*cell.Cell, error) {
+	leaf := cell.MustNew(bits.Pattern(seed, 24+pat).Bytes(), 24+pat, nil, false)
+	wrap := func(inner *cell.Cell) *cell.Cell {
+		return cell.MustNew([]byte{0xAA, byte(pat)}, 16, []*cell.Cell{inner, leaf}, false)
+	}
+	switch kind {
+	case 0, 1, 2:
+		return cell.NewPruned(leaf, kind+1)
+	case 3, 4:
+		in, _ := cell.NewPruned(leaf, 1)
+		return cell.NewPruned(wrap(in), kind-1)
+	case 5:
+		in, _ := cell.NewPruned(leaf, 2)
+		return cell.NewPruned(wrap(in), 3)
+	default:
+		in1, _ := cell.NewPruned(leaf, 1)
+		in2, _ := cell.NewPruned(wrap(in1), 2)
+		return cell.NewPruned(wrap(in2), 3)
+	}
 }
